@@ -29,7 +29,7 @@ checked relationally on the file:
 
 `readOk` — what must hold of the graph the reader built, stated on the reader's own output: the representable range attached
 to a quantised tensor is the full two's-complement / unsigned range of its element type (`fullRange`), metadata names are
-`bytes`.  `metadataKept t0 t1` — file to file (reader then writer, nothing in between): the entries of the source in order,
+`bytes`, a reshaped clone keeps the quantisation (every field), element type and range of the tensor it was cloned from.  `metadataKept t0 t1` — file to file (reader then writer, nothing in between): the entries of the source in order,
 `vela_version`, and exactly one offline plan.
 -/
 namespace VelaVerif.Tflite.Spec
@@ -251,7 +251,13 @@ def readOk (d : Desc) : List Problem :=
     | some r, none => [⟨"representable-range", s!"tensor {i} {t.dtype}: {r.1}..{r.2}"⟩]
     | none, some _ => if t.quant.isSome then [⟨"representable-range", s!"tensor {i} {t.dtype}: none"⟩] else []
     | none, none => []) ++
-  (d.metadata.flatMap fun x => if x.nameIsBytes then [] else [⟨"metadata-name-type", showName x.name⟩])
+  (d.metadata.flatMap fun x => if x.nameIsBytes then [] else [⟨"metadata-name-type", showName x.name⟩]) ++
+  -- a reshaped clone of a constant describes the same numbers: quantisation and element type of its source
+  (d.tensors.zipIdx.flatMap fun (t, i) =>
+    match t.src.bind (d.tensors[·]?) with
+    | some s => if t.quant == s.quant && t.dtype == s.dtype && t.range == s.range then []
+                else [⟨"clone-quantisation", s!"tensor {i} ({showName t.name})"⟩]
+    | none => [])
 
 def metaData (m : ModelT) (f : MetadataT) : Option (Option Data) := (m.buffers[f.buffer]?).map fun b =>
   match b.data with
